@@ -53,6 +53,43 @@ class C(object):
 '''
 
 
+# the same definitions without docstrings (undocumented code is parsed too; `body[1:]` and `body` are different lists)
+FUNC_NODOC_SRC = '''
+def f(dataset_name: str = "mnist", epochs: int = 5, **kwargs) -> int:
+    total = len(dataset_name) * epochs
+    return total
+'''
+CLASS_NODOC_SRC = '''
+class C(object):
+    dataset_name: str = "mnist"
+    limit = 3
+
+    def __init__(self, epochs: int = 5, verbose=None):
+        self.epochs = epochs
+'''
+# decorated / nested: the definition is not the first statement of its module, methods are cls / self
+CLASS_METHODS_SRC = '''
+class C(object):
+    """
+    Train the model.
+
+    :cvar dataset_name: name of dataset.
+    """
+    dataset_name: str = "mnist"
+
+    def __init__(self, epochs: int = 5):
+        self.epochs = epochs
+
+    @classmethod
+    def make(cls, epochs: int = 5) -> int:
+        """
+        :param epochs: number of epochs.
+        """
+        return epochs
+'''
+AST_SHAPES = {"doc": (FUNC_SRC, CLASS_SRC), "nodoc": (FUNC_NODOC_SRC, CLASS_NODOC_SRC), "methods": (FUNC_SRC, CLASS_METHODS_SRC)}
+
+
 def base_irs():
     import_doctrans()
     from doctrans import parse
@@ -142,7 +179,8 @@ def run_seq(sc):
     import_doctrans()
     try:
         if sc["kind"] == "ast":
-            pristine = {"function": ast.parse(FUNC_SRC).body[0], "class": ast.parse(CLASS_SRC).body[0]}
+            fsrc, csrc = AST_SHAPES[sc.get("shape", "doc")]
+            pristine = {"function": ast.parse(fsrc).body[0], "class": ast.parse(csrc).body[0]}
         else:
             pristine = sc["ir"]
         shared = deepcopy(pristine)
@@ -178,9 +216,10 @@ def run(prop="C13", propose=False, replay=None):
     for name, ir in irs.items():
         for s in seqs:
             scs.append({"kind": "ir", "irname": name, "ir": ir, "ops": list(s)})
-    for n in (1, 2, 3, 4):
-        for s in itertools.product(PARSE_OPS, repeat=n):
-            scs.append({"kind": "ast", "irname": "ast", "ops": list(s)})
+    for shape in AST_SHAPES:
+        for n in (1, 2, 3, 4):
+            for s in itertools.product(PARSE_OPS, repeat=n):
+                scs.append({"kind": "ast", "irname": "ast" if shape == "doc" else "ast-" + shape, "shape": shape, "ops": list(s)})
     if replay:
         with open(replay) as f:
             rp = json.load(f)["scenario"]
